@@ -201,7 +201,11 @@ pub fn check_wellformed(rep: &mut Report, s0: &str) {
         Ok(Ok(x)) => x,
     };
     rep.count("wellformed:parsed");
-    let t1 = match t1 { Ok(t) => t, Err(_) => { rep.count("wellformed:not-printable"); return; } };
+    let t1 = match t1 { Ok(t) => t, Err(e) => {
+        rep.count("wellformed:not-printable");
+        // a query that came out of the parser has a text
+        rep.fail("oracle", &format!("C09/parsed-query-cannot-be-printed/{}", if d1.contains("Or(") { "value-list" } else { "other" }), ctx, "a parsed query is printed", &e.chars().take(160).collect::<String>());
+        return; } };
     rep.count("wellformed:printed");
     let q2 = guarded(std::panic::AssertUnwindSafe(|| Query::try_from(t1.as_str()).map(|q| (format!("{:?}", q), q.to_string().map_err(|e| format!("{}", e)))).map_err(|e| format!("{}", e))));
     let mut c2 = ctx.clone();
@@ -480,6 +484,25 @@ pub fn run(opts: &Opts) -> Report {
                 if v != v0 { rep.fail(if v.starts_with("PANIC") { "panic" } else { "oracle" }, "C09/whitespace-before-closer-changes-the-reading", vec![format!("query: {}", q), format!("hex: {}", hex(&q)), format!("with one space: {}", plain)], &v0, &v); }
             }
         } } } }
+    }
+    // texts at the edges of the lexical grammar (numbers beyond the float range, quoted arguments that spell a variable or a
+    // keyword, an unquoted argument ending in a backslash, value lists)
+    {
+        let huge = format!("1{}.0", "0".repeat(310));
+        let edge: Vec<(&str, String)> = vec![
+            ("float-beyond-the-range", format!("SELECT DATA WHERE VALUE = {};", huge)), ("float-beyond-the-range", format!("SELECT DATA WHERE VALUE > -{};", huge)), ("float-beyond-the-range", format!("SELECT DATA WHERE DATA \"s\" \"k\" = {};", huge)),
+            ("quoted-argument-that-begins-with-a-question-mark", "SELECT TEXT WHERE TEXT \"?why not\";".into()), ("quoted-argument-that-begins-with-a-question-mark", "SELECT ANNOTATION WHERE ANNOTATION \"?a b\";".into()), ("quoted-argument-that-begins-with-a-question-mark", "SELECT TEXT WHERE TEXT \"?x\";".into()),
+            ("unquoted-argument-that-ends-in-a-backslash", "SELECT ANNOTATION WHERE ID C:\\dir\\;".into()), ("unquoted-argument-that-ends-in-a-backslash", "SELECT DATA WHERE VALUE = a\\;".into()),
+            ("quoted-argument-that-spells-a-qualifier", "SELECT TEXT WHERE RESOURCE RECURSIVE \"AS\";".into()), ("quoted-argument-that-spells-a-qualifier", "SELECT TEXT WHERE RESOURCE RECURSIVE \"RECURSIVE\";".into()),
+            ("value-list", "SELECT DATA WHERE DATA \"s\" \"k\" = a|b;".into()), ("value-list", "SELECT DATA WHERE DATA \"s\" \"k\" != 1|2;".into()), ("value-list", "SELECT DATA WHERE VALUE = \"a|b\";".into()),
+        ];
+        for (name, q) in &edge {
+            rep.count(&format!("edge-of-the-lexical-grammar:{}", name)); rep.case(Some(q));
+            let n0 = rep.failures.len();
+            check_wellformed(&mut rep, q);
+            // (named by the kind of input, so that a listed finding about one kind hides nothing else)
+            for f in rep.failures.iter_mut().skip(n0) { f.signature = format!("C09/edge/{}", name); }
+        }
     }
     built_stream(&mut rep);
     lexical_stream(&mut rep, &mut g, if opts.thorough() { 20000 } else { 2000 });
